@@ -131,6 +131,21 @@ def constructed(rng):
                         lo, hi = (p, q) if p < q else (q, p)
                         out.append("cmpall vv %s %s" % (G.fD(sg * a, lo), G.fD(b, hi)))
                         out.append("minmax %s %s" % (G.fD(b, hi), G.fD(sg * a, lo)))
+    # wrap twins: b is what a * 10^k wraps to in i128 (unchecked multiplications make them look equal)
+    for _ in range(600):
+        p = rng.randrange(0, 18)
+        q = rng.randrange(p + 1, 19)
+        k = q - p
+        a = rng.randrange(M // P10[k] + 1, min(M, 3 * (M // P10[k] + 1)) + 1) * rng.choice((1, -1))
+        w = G.wrap_twin(a, k)
+        if w is None:
+            continue
+        out.append("cmpall vv %s %s" % (G.fD(a, p), G.fD(w, q)))
+        out.append("cmpall vv %s %s" % (G.fD(w, q), G.fD(a, p)))
+        out.append("minmax %s %s" % (G.fD(a, p), G.fD(w, q)))
+        if q == 18 or p == 0:
+            if p == 0:
+                out.append("cmpall vv i128:%d %s" % (a, G.fD(w, k)))
     # 2^68-ish coefficients against scale 18 (fast paths that forget the sign bit)
     for _ in range(300):
         a = rng.randrange(170141183460469231731 - 5, (1 << 68) + 5) * rng.choice((1, -1))
